@@ -365,6 +365,15 @@ def c07(tier):
                   'timeout must end the iteration (virtual clock starting at an epoch-sized value)',
                   server=dict(kind='grammar', K=2, alphabet=['pong', 'text']), end='silence', silent_waits=10 ** 6,
                   connect=dict(poll=1.0, ping_rate=1.0, ping_timeout=3.0), max_waits=30),
+        life_spec('timers-vs-trickle', tags,
+                  'close_timeout / ping_timeout armed while the server keeps the socket readable WITHOUT completing a message: after <=1 Text/Pong it '
+                  'trickles one byte of an unfinished fragment every 0.5 s (poll = 1 s) for 140 s; the application may close(); the timeout must end the '
+                  'iteration although no wait ever times out and no event is produced (virtual clock)',
+                  server=dict(kind='grammar', K=2, alphabet=['text', 'pong', 'trickle']), end='silence', silent_waits=10 ** 6, cuts='bytewise',
+                  arrival_gap=0.5, connect_options=[dict(poll=1.0, close_timeout=3.0), dict(poll=1.0, ping_rate=1.0, ping_timeout=3.0),
+                                                    dict(poll=1.0, ping_rate=0, ping_timeout=3.0, close_timeout=2.0)],
+                  app=dict(actions=['close_default'], max_actions=1, only_events=['ready', 'text', 'pong']), max_waits=60,
+                  must_reach=['trickled']),
         life_spec('unicode-options', tags,
                   'WebSocket(url, agent=..., protocols=[...]) with one symbolic code point each (every plane, surrogates and controls excluded): '
                   'whatever the text, the attempt yields a well-formed event sequence (no exception escapes while the request is built)',
